@@ -11,6 +11,7 @@ def _explore(name, views, depth, alphabet="full"):
                 args=["--space", "explore", "--views", views, "--depth", depth, "--alphabet", alphabet])
 
 
+_LONGTEXT = dict(name="range-content-ops-long-text", driver="c14_viewx", extra_flags=_FLAGS, args=["--space", "longtext"])
 _WITNESSES = dict(name="known-defect-witnesses", driver="c14_viewx", extra_flags=_FLAGS, args=["--space", "witnesses"])
 
 
@@ -77,7 +78,9 @@ SPEC = dict(
          "(keep_traversal(): every NodeIterator/TreeWalker configuration, nextNode/previousNode and the seven walker moves, every removeChild, four "
          "re-insertions) to depth 6 (quick) / 8 (thorough): positions such as 'last movement was previousNode() and the reference node is the tail of the "
          "iteration' need creation + n x nextNode + previousNode + removal and are out of reach of depth 3/4.  distinct_nontrivial = distinct states (by key) "
-         "with at least one live view.  The space 'known-defect-witnesses' executes the fixed witness history of each KNOWN_DEFECTS entry without guards.",
+         "with at least one live view.  The space 'range-content-ops-long-text' runs cloneContents / extractContents / deleteContents on ranges that start or end inside one Text node of "
+         "length 10..12000 at every offset within 2 of 0, the middle, the end and of 3997..4002 from either end (the 4000-character internal buffers of "
+         "DOMRangeImpl::traverseTextNode), expected strings by substring arithmetic.  The space 'known-defect-witnesses' executes the fixed witness history of each KNOWN_DEFECTS entry without guards.",
     trusted_base=["reference DOM L2 Traversal/Range model drv/c14_ref.hpp + drv/c14_apply.hpp (written from the recommendation text restated in DOMRange.hpp, "
                   "DOMNodeIterator.hpp, DOMTreeWalker.hpp; shares no code with Xerces)", "clang 14 ASan/UBSan"],
     assumptions=[
@@ -100,8 +103,8 @@ SPEC = dict(
     ],
     coverage=_coverage,
     runs=dict(
-        quick=[_WITNESSES, _explore("one-view-depth3", 1, 3), _explore("traversal-depth6", 1, 6, "traversal")],
-        thorough=[_WITNESSES, _explore("one-view-depth3", 1, 3), _explore("two-views-depth3", 2, 3), _explore("one-view-depth4-medium", 1, 4, "medium"),
+        quick=[_WITNESSES, _LONGTEXT, _explore("one-view-depth3", 1, 3), _explore("traversal-depth6", 1, 6, "traversal")],
+        thorough=[_WITNESSES, _LONGTEXT, _explore("one-view-depth3", 1, 3), _explore("two-views-depth3", 2, 3), _explore("one-view-depth4-medium", 1, 4, "medium"),
                   _explore("traversal-depth8", 1, 8, "traversal")],
     ),
     manifest=dict(
